@@ -38,6 +38,7 @@ pub fn strategy() -> impl Strategy<Value = Case> {
         3 => (any::<u16>(), any::<u16>()).prop_map(|(a, b)| Op::Create(a, b)),
         3 => any::<u16>().prop_map(Op::Delete),
         1 => any::<u16>().prop_map(Op::BulkCreate),
+        2 => Just(Op::PackRefs),
     ];
     let step = prop_oneof![
         4 => repo.prop_map(Step::Repo),
